@@ -29,7 +29,7 @@ ASSUMPTIONS = ["thresholds are >= 3x the worst value observed over the thorough 
 # >= 3x the worst value observed over the whole thorough lattice on the repaired tree:
 # default rates 0.0098 rad / 0.0041 rad/s, slow rates (100 Hz IMU, RK4 step error dominates) 0.0294 rad / 0.0127 rad/s,
 # rate-limited corrections (accel every 4th IMU message, mag every 2nd) 0.0104 rad / 0.0059 rad/s
-TOL = {"default": (0.03, 0.0125), "slow": (0.09, 0.04), "limited": (0.035, 0.018)}
+TOL = {"default": (0.03, 0.0125), "slow": (0.09, 0.04), "limited": (0.035, 0.018), "offgrid": (0.08, 0.03)}  # offgrid: worst observed 0.027 rad / 0.005 rad/s
 ATT_TOL, BIAS_TOL = TOL["default"]
 
 _L = {}
@@ -52,7 +52,9 @@ def bounds(tier):
 
 RATES = {"default": {}, "slow": {"sim/dt_sim": 1.0 / 400, "sim/dt_imu": 1.0 / 100, "sim/dt_mag": 1.0 / 25, "logger/dt": 1.0 / 100},
          # corrections rate-limited below the sensor rates (prediction on every IMU message, corrections on every 4th / 2nd)
-         "limited": {"mrp/dt_min_accel": 1.0 / 50, "mrp/dt_min_mag": 1.0 / 25}}
+         "limited": {"mrp/dt_min_accel": 1.0 / 50, "mrp/dt_min_mag": 1.0 / 25},
+         # magnetometer samples stamped BETWEEN IMU samples (period 3/400 s against 1/200 s)
+         "offgrid": {"sim/dt_mag": 3.0 / 400}}
 
 
 def run_loop(cfg, chooser=None):
@@ -184,6 +186,8 @@ def lattice(tier):
         full = chosen
     tf = 30 if tier == "thorough" else 20
     out = [dict(x0=atts[a] + biases[b], initialize=inits[i], decl=mags[mg][0], incl=mags[mg][1], rates=rates[r], tf=tf) for a, b, i, mg, r in full]
+    for x0, init in (([0.3, -0.3, 0.3, 0.07, 0.02, -0.07], True), ([-0.3, 0.3, 0.3, -0.05, 0.05, 0.05], False), ([0.0, 0.0, 0.8, 0.0, 0.0, 0.0], True), ([0.3, 0.3, -0.3, 0.0, 0.0, 0.0], False)):
+        out.append(dict(x0=x0, initialize=init, decl=0.2, incl=1.0, rates="offgrid", tf=tf))
     # the initial state left to the launcher's default, and given as integer-valued data
     for form, x0, init in (("default", [0.0] * 6, True), ("int_list", [0.0] * 6, False), ("int_array", [0.0] * 6, True)):
         out.append(dict(x0=x0, initialize=init, decl=0.2, incl=1.0, rates="default", tf=tf, x0_form=form))
